@@ -147,7 +147,7 @@ where
             table_r: other.table,
             nodes: extend_lpm(
                 other.table,
-                other.table[other.loc.idx()].prefix_value(),
+                None,
                 next_indices(
                     self.table,
                     other.table,
@@ -257,7 +257,7 @@ where
         let other = other.view();
         let nodes = extend_lpm(
             other.table,
-            other.table[other.loc.idx()].prefix_value(),
+            None,
             next_indices(
                 self.table,
                 other.table,
